@@ -108,4 +108,3 @@ func tailPass(r *ev.Run, counters map[string]int64) {
 	}
 	wg.Wait()
 }
-
